@@ -129,6 +129,12 @@ type Case struct {
 	// and the served rules stay what they were (unless the update turns out to
 	// be a no-op that writes nothing: then it is accepted and changes nothing).
 	Updates []RuleUpdate `json:"updates,omitempty"`
+	// CounterLag: stores whose status counters (region/leader count and size)
+	// were reset by a leadership change of pd and not refreshed yet: pd sees 0
+	// regions while the store holds the spec's RegionCount regions. Only applied
+	// while the finding C10/store-counters-lag-after-leadership-change is known
+	// (real pd can produce that state); the oracle always judges by the spec.
+	CounterLag []uint64 `json:"counter_lag,omitempty"`
 	// Constructive: the generator shaped the case towards the liveness clause
 	// (informational; the runner re-derives the obligation from the data).
 	Constructive bool `json:"constructive,omitempty"`
@@ -180,7 +186,7 @@ var collidingFamilies = [][2][]string{
 // genClusterOptions draws the remaining options and reshapes the topology. It
 // reports whether the cluster got labels of unequal width (the rule generator
 // then prefers isolation levels below the first location label).
-func genClusterOptions(t *rapid.T, c *simkit.ClusterSpec) (colliding bool) {
+func genClusterOptions(t *rapid.T, c *simkit.ClusterSpec) (colliding bool, lagStores []uint64) {
 	c.MaxStoreDownTimeSec = simkit.Pick(t, []int{0, 0, 0, 600, 3600, 3 * 3600}, "maxStoreDownTime")
 	if pct(t, 15, "lowSpaceRatio") {
 		c.LowSpaceRatio = simkit.Pick(t, []float64{0.7, 0.9}, "lowSpaceRatioValue")
@@ -251,7 +257,14 @@ func genClusterOptions(t *rapid.T, c *simkit.ClusterSpec) (colliding bool) {
 			}
 		}
 	}
-	return colliding
+	if pct(t, 8, "counterLag") {
+		for _, s := range c.Stores {
+			if s.RegionCount > 0 && pct(t, 60, "laggingStore") {
+				lagStores = append(lagStores, s.ID)
+			}
+		}
+	}
+	return colliding, lagStores
 }
 
 // freshStore is a store nothing can be said against: Up, heartbeat now, empty,
@@ -316,7 +329,7 @@ func makeConstructive(t *rapid.T, c *Case, required int) {
 func genReplicaCase(t *rapid.T) Case {
 	c := Case{Mode: "replica", Via: "direct"}
 	c.Cluster = simkit.GenCluster(t, simkit.ClusterGen{MinStores: 3, MaxStores: 8, HealthyBias: 60, Rules: "off"})
-	genClusterOptions(t, &c.Cluster)
+	_, c.CounterLag = genClusterOptions(t, &c.Cluster)
 	c.Region = genRegion(t, &c.Cluster, 2, c.Cluster.MaxReplicas)
 	c.Flags = genFlags(t)
 	if pct(t, 12, "constructive") {
@@ -446,7 +459,8 @@ func genRules(t *rapid.T, cl *simkit.ClusterSpec, unequalWidth bool) []RuleSpec 
 func genRuleCase(t *rapid.T) Case {
 	c := Case{Mode: "rule", Via: "direct"}
 	c.Cluster = simkit.GenCluster(t, simkit.ClusterGen{MinStores: 3, MaxStores: 8, HealthyBias: 60, Rules: "on"})
-	unequalWidth := genClusterOptions(t, &c.Cluster)
+	unequalWidth, lag := genClusterOptions(t, &c.Cluster)
+	c.CounterLag = lag
 	c.Rules = genRules(t, &c.Cluster, unequalWidth)
 	total := 0
 	for i := range c.Rules {
@@ -797,6 +811,7 @@ type tolerance struct {
 	strict     bool // probes: tolerate nothing
 	hit        bool
 	leaderless bool // the trigger class of keyLeaderless was skipped
+	lag        bool // a target was low on space only by its true region count (keyCounterLag)
 }
 
 func runCase(c Case) (vkit.Info, error) {
@@ -810,6 +825,11 @@ func runCase(c Case) (vkit.Info, error) {
 	if tol.leaderless {
 		info.Exclude(keyLeaderless)
 		info.Class("excluded:rule-checker-leaderless-region-panics")
+	}
+	if tol.lag {
+		info.Exclude(keyCounterLag)
+		info.Class("excluded:store-counters-lag-after-leadership-change")
+		info.NonTrivial = false
 	}
 	if tol.hit {
 		info.Exclude(keyRoleChange)
@@ -1004,7 +1024,21 @@ func runOnce(c *Case, info *vkit.Info, rep int, tol *tolerance) (built bool, err
 	first := rep == 0
 	ctx, stop := context.WithCancel(context.Background())
 	defer stop()
-	mc, cancel := simkit.Build(ctx, c.Cluster)
+	// what pd sees: the spec, except that lagging stores show zero counters
+	seen := c.Cluster
+	lagging := len(c.CounterLag) > 0 && !tol.strict && vkit.Known(keyCounterLag)
+	if lagging {
+		seen.Stores = append([]simkit.StoreSpec(nil), c.Cluster.Stores...)
+		for i := range seen.Stores {
+			if contains(c.CounterLag, seen.Stores[i].ID) {
+				seen.Stores[i].RegionCount, seen.Stores[i].LeaderCount, seen.Stores[i].RegionSize, seen.Stores[i].LeaderSize = 0, 0, 0, 0
+			}
+		}
+		if first {
+			info.Class("counter-lag")
+		}
+	}
+	mc, cancel := simkit.Build(ctx, seen)
 	defer cancel()
 	mc.SetEnableReplaceOfflineReplica(c.Flags.ReplaceOffline)
 	mc.SetEnableRemoveDownReplica(c.Flags.RemoveDown)
@@ -1201,6 +1235,9 @@ func runOnce(c *Case, info *vkit.Info, rep int, tol *tolerance) (built bool, err
 			case !ts.IsConnected():
 				return true, fmt.Errorf("step %d adds a peer on store %d whose last heartbeat is %d s old (disconnected after %d s); %s",
 					i, target, ts.HeartbeatAgeSec, simkit.DisconnectAfterSec, where())
+			case c.Cluster.IsLowSpace(ts) && lagging && contains(c.CounterLag, target) && !seen.IsLowSpace(seen.Store(target)):
+				// known: low on space by the regions it really holds, "small store" by its lagging counter
+				tol.lag = true
 			case c.Cluster.IsLowSpace(ts):
 				return true, fmt.Errorf("step %d adds a peer on store %d which is low on space (available %.2f, low-space-ratio %.2f, %d regions); %s",
 					i, target, ts.AvailableRatio, c.Cluster.LowSpace(), ts.RegionCount, where())
